@@ -636,6 +636,8 @@ class Summarizer:
                 return a + b
             if isinstance(a, ListV) and isinstance(b, ListV):
                 return ListV(a.items + b.items)
+            if isinstance(a, Sym) and isinstance(a.key, tuple) and a.key and a.key[0] == "concat" and isinstance(a.key[2], ListV) and isinstance(b, ListV):
+                return Sym(("concat", a.key[1], ListV(a.key[2].items + b.items)))
             if isinstance(a, (str, ListV)) or isinstance(b, (str, ListV)):
                 return Sym(("concat", vkey(a), vkey(b)))
             return to_num(a) + to_num(b)
@@ -662,6 +664,15 @@ class Summarizer:
     def call(self, n, st):
         fname = self.call_name(n)
         args = [self.expr(a, st) for a in n.args]
+        # x.append(e) / x.extend([..]) on a list built in this function: functional update, like x += [e]
+        if isinstance(n.func, ast.Attribute) and n.func.attr in ("append", "extend") and isinstance(n.func.value, ast.Name) and len(args) == 1 and not n.keywords:
+            cur = st.env.get(n.func.value.id)
+            islist = isinstance(cur, ListV) or (isinstance(cur, Sym) and isinstance(cur.key, tuple) and cur.key and cur.key[0] in ("prefix", "concat", "entry"))
+            if islist:
+                add = ListV([args[0]]) if n.func.attr == "append" else args[0]
+                if isinstance(add, ListV):
+                    st.env[n.func.value.id] = self.binop(ast.Add(), cur, add)
+                    return Sym(("none",))
         kwargs = {k.arg: self.expr(k.value, st) for k in n.keywords}
         v = self.h.call(self, n, fname, args, kwargs, st) if hasattr(self.h, "call") else None
         if v is not None:
